@@ -49,6 +49,7 @@ def nest(r, depth, fresh):
 
 class C17(framework.PropertyCheck):
     pid = 'C17'
+    theorem_coverage = True
     quick_cases = 300
     thorough_cases = 6000
     rule = ('histories of up to 6 top-level evaluations, each a random nesting (depth<=5) of let / call / in-scope / in-group / in-groups / reval / find / '
